@@ -11,7 +11,7 @@ shutil.copy(f'{src}/demo_{X}.py', f'{dst}/demo.py')
 am = json.load(open(f'{src}/meta.json')).get(X, {})
 meta = {'id': sid, 'property': sid.split('-')[0], 'summary': am.get('summary'), 'needs_to_manifest': am.get('needs_to_manifest'),
         'files': am.get('files'),
-        'written_by': 'independent sub-agent (second round: given the property text, its own scratch worktree and the '
+        'written_by': os.environ.get('SEED_ROUND_TEXT') or 'independent sub-agent (second round: given the property text, its own scratch worktree and the '
                       'summaries of the two earlier seeded changes for this property, to avoid repeats)',
         'confirmed': {'how': f'tools/confirm_seeded.sh {sid} (demonstration with and without the patch and the unedited '
                              f'475-test suite, on a scratch copy of /repo HEAD); tools/seed_recheck.py {sid} (registered '
